@@ -150,7 +150,11 @@ pub fn tst_info_der(gen_time: i64) -> Vec<u8> {
     ])
 }
 
+/// A distinguished name `O=<org>, CN=<cn>`; an empty `org` leaves the organisation attribute out.
 pub fn name(org: &str, cn: &str) -> Vec<u8> {
+    if org.is_empty() {
+        return seq(&[set(&[seq(&[oid("2.5.4.3"), utf8(cn)])])]);
+    }
     seq(&[
         set(&[seq(&[oid("2.5.4.10"), utf8(org)])]),
         set(&[seq(&[oid("2.5.4.3"), utf8(cn)])]),
